@@ -122,24 +122,74 @@ pub fn span_body<N: Nd, const M: usize>(nd: &mut N) {
 }
 
 harnesses! {
+    // small documents: cheap, and still decidable when a change pulls heavier std code (lines(), find()) into the
+    // conversion functions and the n4/n6 harnesses no longer finish within the cap
+    #[kani::unwind(4)]
+    #[kani::stub(core::slice::memchr::memchr, crate::env::memchr_stub)]
+    #[kani::stub(core::slice::memchr::memrchr, crate::env::memrchr_stub)]
+    #[kani::stub(core::str::count::count_chars, crate::env::count_chars_stub)]
+    fn c19_roundtrip_n2(nd) { roundtrip_body::<_, 2>(nd) }
+    #[kani::unwind(4)]
+    #[kani::stub(core::slice::memchr::memchr, crate::env::memchr_stub)]
+    #[kani::stub(core::slice::memchr::memrchr, crate::env::memrchr_stub)]
+    #[kani::stub(core::str::count::count_chars, crate::env::count_chars_stub)]
+    fn c19_monotone_n2(nd) { monotone_body::<_, 2>(nd) }
+    #[kani::unwind(4)]
+    #[kani::stub(core::slice::memchr::memchr, crate::env::memchr_stub)]
+    #[kani::stub(core::slice::memchr::memrchr, crate::env::memrchr_stub)]
+    #[kani::stub(core::str::count::count_chars, crate::env::count_chars_stub)]
+    fn c19_position_n2(nd) { position_body::<_, 2>(nd) }
+    #[kani::unwind(4)]
+    #[kani::stub(core::slice::memchr::memchr, crate::env::memchr_stub)]
+    #[kani::stub(core::slice::memchr::memrchr, crate::env::memrchr_stub)]
+    #[kani::stub(core::str::count::count_chars, crate::env::count_chars_stub)]
+    fn c19_span_n2(nd) { span_body::<_, 2>(nd) }
+
     #[kani::unwind(6)]
+    #[kani::stub(core::slice::memchr::memchr, crate::env::memchr_stub)]
+    #[kani::stub(core::slice::memchr::memrchr, crate::env::memrchr_stub)]
+    #[kani::stub(core::str::count::count_chars, crate::env::count_chars_stub)]
     fn c19_roundtrip_n4(nd) { roundtrip_body::<_, 4>(nd) }
     #[kani::unwind(6)]
+    #[kani::stub(core::slice::memchr::memchr, crate::env::memchr_stub)]
+    #[kani::stub(core::slice::memchr::memrchr, crate::env::memrchr_stub)]
+    #[kani::stub(core::str::count::count_chars, crate::env::count_chars_stub)]
     fn c19_monotone_n4(nd) { monotone_body::<_, 4>(nd) }
     #[kani::unwind(6)]
+    #[kani::stub(core::slice::memchr::memchr, crate::env::memchr_stub)]
+    #[kani::stub(core::slice::memchr::memrchr, crate::env::memrchr_stub)]
+    #[kani::stub(core::str::count::count_chars, crate::env::count_chars_stub)]
     fn c19_position_n4(nd) { position_body::<_, 4>(nd) }
     #[kani::unwind(6)]
+    #[kani::stub(core::slice::memchr::memchr, crate::env::memchr_stub)]
+    #[kani::stub(core::slice::memchr::memrchr, crate::env::memrchr_stub)]
+    #[kani::stub(core::str::count::count_chars, crate::env::count_chars_stub)]
     fn c19_span_n4(nd) { span_body::<_, 4>(nd) }
 
     #[kani::unwind(8)]
+    #[kani::stub(core::slice::memchr::memchr, crate::env::memchr_stub)]
+    #[kani::stub(core::slice::memchr::memrchr, crate::env::memrchr_stub)]
+    #[kani::stub(core::str::count::count_chars, crate::env::count_chars_stub)]
     fn c19_roundtrip_n6(nd) { roundtrip_body::<_, 6>(nd) }
     #[kani::unwind(8)]
+    #[kani::stub(core::slice::memchr::memchr, crate::env::memchr_stub)]
+    #[kani::stub(core::slice::memchr::memrchr, crate::env::memrchr_stub)]
+    #[kani::stub(core::str::count::count_chars, crate::env::count_chars_stub)]
     fn c19_monotone_n6(nd) { monotone_body::<_, 6>(nd) }
     #[kani::unwind(8)]
+    #[kani::stub(core::slice::memchr::memchr, crate::env::memchr_stub)]
+    #[kani::stub(core::slice::memchr::memrchr, crate::env::memrchr_stub)]
+    #[kani::stub(core::str::count::count_chars, crate::env::count_chars_stub)]
     fn c19_position_n6(nd) { position_body::<_, 6>(nd) }
     #[kani::unwind(8)]
+    #[kani::stub(core::slice::memchr::memchr, crate::env::memchr_stub)]
+    #[kani::stub(core::slice::memchr::memrchr, crate::env::memrchr_stub)]
+    #[kani::stub(core::str::count::count_chars, crate::env::count_chars_stub)]
     fn c19_span_n6(nd) { span_body::<_, 6>(nd) }
 
     #[kani::unwind(10)]
+    #[kani::stub(core::slice::memchr::memchr, crate::env::memchr_stub)]
+    #[kani::stub(core::slice::memchr::memrchr, crate::env::memrchr_stub)]
+    #[kani::stub(core::str::count::count_chars, crate::env::count_chars_stub)]
     fn c19_roundtrip_n8(nd) { roundtrip_body::<_, 8>(nd) }
 }
